@@ -17,6 +17,9 @@ type JOpts struct {
 	Int64AsString bool
 	// Qualify: member names carry "module:" at the top level and where the module changes.
 	Qualify bool
+	// TopBelowRoot: the document's top-level object is not the module root (start selection below the
+	// root): RFC 7951 still wants every member of the top-level object qualified.
+	TopBelowRoot bool
 }
 
 // ---- reference encoder (model tree -> JSON text), used to feed readers ------------------------
@@ -178,7 +181,7 @@ func DecodeJSON(s *Schema, parentS *SNode, text string, o JOpts) *JDecoded {
 		jd.problem("shape/top-not-object", "top level value is %v", tok)
 		return jd
 	}
-	if !p.object(jd.Tree) {
+	if !p.object(jd.Tree, true) {
 		return jd
 	}
 	// exactly one value then EOF
@@ -203,7 +206,7 @@ func (p *jdec) skipValue() bool {
 }
 
 // object reads members until the closing brace; the opening brace is already consumed.
-func (p *jdec) object(into *DNode) bool {
+func (p *jdec) object(into *DNode, top bool) bool {
 	kids := into.schemaKids(p.s)
 	pos := -1
 	seen := map[string]bool{}
@@ -250,6 +253,9 @@ func (p *jdec) object(into *DNode) bool {
 		wantQ := ""
 		if p.o.Qualify {
 			want := sn.jname(p.s, into.S, p.o)
+			if top {
+				want = sn.jname(p.s, nil, p.o)
+			}
 			if i := strings.Index(want, ":"); i >= 0 {
 				wantQ = want[:i]
 			}
@@ -303,7 +309,7 @@ func (p *jdec) object(into *DNode) bool {
 			}
 			k := NewDNode(sn)
 			into.Kids[sn.Name] = k
-			if !p.object(k) {
+			if !p.object(k, false) {
 				return false
 			}
 		case List:
@@ -329,7 +335,7 @@ func (p *jdec) object(into *DNode) bool {
 					return false
 				}
 				e := NewDNode(sn)
-				if !p.object(e) {
+				if !p.object(e, false) {
 					return false
 				}
 				l.Entries = append(l.Entries, e)
